@@ -75,6 +75,29 @@ CHECKS = {
    text="get_einsum_ranks() equals 'output ranks as written, then first appearance' for all rank-name assignments over 8 expression shapes; the "
         "default loop order expands every partitioned rank in place; absent/None/empty mapping sections parse to the empty default.",
    note="Trusted base: CrossHair + z3; lark parsing itself is out of reach (C17). The LoopOrder harness is an exhaustive enumeration under the tracer."),
+ "C08": dict(engine="E1", cat="translation_validation", ref="§3 E1/E2, §6 C08",
+   technique="texts collected under sampled PYTHONHASHSEED values; each distinct text decided by symbolic execution + z3 (E1) and path-SAT (E2)",
+   text="The seed dimension is sampled (stated); every distinct text produced for a specification is shown closed and equal to the dense Einsum "
+        "for all inputs, so all variants compute identical tensors; seed-dependent refusals and same-process differences are reported.",
+   note=E1_NOTE + " Hash seeds 0..7 (quick) / 0..31 (thorough) are a sample, not a proof over all seeds; scheduler tie-breaks are covered exhaustively by C10."),
+ "C11": dict(engine="E1", cat="translation_validation", ref="§3 E1, §6 C11, §8",
+   technique="symbolic execution of metrics-mode and plain-mode programs with recording stand-ins + z3 equivalence with the dense Einsum",
+   text="For every F-metrics member the metrics-mode program and the plain-mode program are both equal to the dense Einsum over the same "
+        "symbolic inputs; explicit shapes are checked against every coordinate created.", note=E1_NOTE),
+ "C12": dict(engine="E1", cat="translation_validation", ref="§3 E1, §6 C12",
+   technique="symbolic execution with a protocol monitor in the Metrics/Traffic/Compute/Intersector stand-ins; z3 decides path-condition implications",
+   text="begin/endCollect exactly once around the loops; every consumeTrace under pc has a consumable registration under pc' with pc => pc'; "
+        "every file name handed to filter/traffic/sequencer models is produced in the same section; every queried intersector was created "
+        "before the loops and fed inside them.", note=E1_NOTE),
+ "C14": dict(engine="E1", cat="translation_validation", ref="§3 E1, §6 C14, §8",
+   technique="symbolic execution of the dump with fresh real symbols for every model count; z3 (LRA) decides the roll-up identities",
+   text="metrics['time'] equals the sum over the reported blocks of the max over components of the summed component times, every component "
+        "time enters once, and each time times (clock or bandwidth) x instances - taken from the raw YAML by an independent walk - equals "
+        "the component's counts, for all values of the counts.", note=E1_NOTE),
+ "C16": dict(engine="E1", cat="translation_validation", ref="§3 E1, §6 C16",
+   technique="symbolic execution with a recording canvas; z3 decides tensor equivalence, update/activity pairing and stamp collisions",
+   text="With every F-st spacetime mapping the tensors equal those without it; each executed update is followed by exactly one addActivity "
+        "under the same path condition with one coordinate per displayed rank; no two activities can carry the same stamp (unsat).", note=E1_NOTE),
 }
 NA = [
  {"property_id": "C17", "reason": "parsing is done by lark's Earley engine over regex terminals: CrossHair realises symbolic strings at re/hash (probe: 90 s, 'Not confirmed', TypeError inside lark), and an SMT regex model of the grammars would check my reading of lark, not the code; no solver-based encoding of the real parser is within reach (DESIGN §7)"},
